@@ -1,7 +1,189 @@
-(* C11 -- request-response: responses reach exactly the request they answer. Statements only. *)
-From V Require Import model.Base model.ReqRes proofs.ReqResProofs.
+(* C11 -- request-response: responses reach exactly the request they answer.
+   Statements only; every proof is `exact <lemma>` from proofs/ReqResProofs.v, proofs/ReqResInv.v,
+   followed by Print Assumptions (checked by ./check).  `reach g s`: s is the state of
+   model/ReqRes.v after ANY history of the 20 operations (client/server create and drop,
+   loan/send/send_copy, receive, drops of every object in any order, set_disconnect_hint,
+   has_requests) with ANY polling order, for the configuration g (all limits, overflow and
+   fire-and-forget flags, numbers of client / server slots are universally quantified). *)
+From V Require Import model.Base model.ReqRes proofs.ReqResProofs proofs.ReqResInv.
 Open Scope N_scope.
 
-Theorem c11_cas_spec : forall cur e n, cas cur e n = if N.eqb cur e then (n, true) else (cur, false).
-Proof. exact cas_spec. Qed.
-Print Assumptions c11_cas_spec.
+(* ---- the channel-state word ------------------------------------------------------------- *)
+(* close_channel(r) leaves a word that no longer has state r (with or without the hint), and
+   does not touch a channel that was re-opened for another request r' *)
+Theorem c11_close_channel : forall w r, chw w -> rid_ok r -> ch_has_state (ch_close w r) r = false.
+Proof. exact close_not_state. Qed.
+Print Assumptions c11_close_channel.
+Example c11_close_channel_nonvacuous :
+  chw (N.lor 5 HINT_BIT) /\ rid_ok 5 /\ ch_has_state (N.lor 5 HINT_BIT) 5 = true /\ ch_close (N.lor 5 HINT_BIT) 5 = CH_CLOSED.
+Proof. split; [apply chw_hint; reflexivity|]. split; [reflexivity|]. split; vm_compute; reflexivity. Qed.
+Print Assumptions c11_close_channel_nonvacuous.
+
+Theorem c11_close_channel_other : forall w r r', chw w -> rid_ok r -> rid_ok r' -> r <> r' ->
+  ch_has_state w r' = true -> ch_close w r = w.
+Proof. exact close_other. Qed.
+Print Assumptions c11_close_channel_other.
+Example c11_close_channel_other_nonvacuous : chw 7 /\ rid_ok 5 /\ rid_ok 7 /\ 5 <> 7 /\ ch_has_state 7 7 = true.
+Proof. split; [apply chw_rid; reflexivity|]. repeat split; try reflexivity. discriminate. Qed.
+Print Assumptions c11_close_channel_other_nonvacuous.
+
+(* ---- no stale response into a reused channel (unconditional) --------------------------- *)
+(* In every reachable state, every response ever handed out by PendingResponse::receive carries
+   the request id of THAT pending response: a response written for request r (its header id is
+   r: act_loan) that is still queued in a channel when the channel is recycled for a later
+   request r' of the same client is never returned through r'. *)
+Theorem c11_no_stale_into_reused : forall g s, reach g s ->
+  forall p m, In (p, m) (s_rlog s) -> p_rid m = q_rid (pn_msg p).
+Proof. exact rlog_ok_reach. Qed.
+Check c11_no_stale_into_reused : forall g s, reach g s -> forall p m, In (p, m) (s_rlog s) -> p_rid m = q_rid (pn_msg p).
+Print Assumptions c11_no_stale_into_reused.
+(* ... the filter is what PendingResponse::receive itself does, for every fuel / order ... *)
+Theorem c11_receive_filters : forall fuel g s p ord s' sv m,
+  pend_receive fuel g s p ord = (s', PRSome sv m) -> p_rid m = q_rid (pn_msg p).
+Proof. exact pend_receive_filter. Qed.
+Print Assumptions c11_receive_filters.
+(* ... and the discarded response is released: release_offset moves it from the borrowed set
+   into the completion queue of its channel (the sender reclaims it at its next allocate/send) *)
+Theorem c11_discarded_is_released : forall s cl sv ch m k,
+  get_conn s cl sv = Some k -> view_on (k_cv k) = true ->
+  exists k', get_conn (response_release s cl sv ch m) cl sv = Some k' /\
+             c_comp (k_chan k' ch) = (if N.ltb ch (lenN (k_ch k)) then c_comp (k_chan k ch) ++ [m] else c_comp (k_chan k' ch)) /\
+             (N.ltb ch (lenN (k_ch k)) = true -> ~ In (p_id m) (map p_id (c_bor (k_chan k' ch)))).
+Proof. exact response_release_spec. Qed.
+Print Assumptions c11_discarded_is_released.
+(* non-vacuity: request 0 (channel 0) is answered, dropped unread, channel 0 is recycled for
+   request 3 with the stale response still queued (has_response = true); the next receive
+   discards it and returns the answer to request 3 *)
+Example c11_no_stale_into_reused_nonvacuous :
+  let s := run cfg3 w_reuse in
+  reach cfg3 s /\
+  map (fun p => (q_ch (pn_msg p), q_rid (pn_msg p))) (s_pends s) = [(0, 3)] /\
+  digest_p s = [(3, true, true)] /\
+  snd (step cfg3 ord_all s (Pr 0)) = OResp 30000 /\
+  map (fun pm => (q_rid (pn_msg (fst pm)), p_rid (snd pm))) (s_rlog (fst (step cfg3 ord_all s (Pr 0)))) = [(3, 3)].
+Proof. split; [apply reach_run|exact w_reuse_spec]. Qed.
+Print Assumptions c11_no_stale_into_reused_nonvacuous.
+
+(* ---- routing ------------------------------------------------------------------------------ *)
+(* The clause as the property states it: every response handed out through a pending response
+   carries its request id AND was sent by an ActiveRequest of a request of the SAME client. *)
+Definition c11_routing_full : Prop := forall g s, reach g s ->
+  forall p m, In (p, m) (s_rlog s) -> p_rid m = q_rid (pn_msg p) /\ p_ocl m = pn_cl p.
+(* FALSE of the faithful model (and of /repo: known finding
+   routing:stale-active-request-reaches-new-client): ActiveRequest addresses its client by the
+   slot index of the connection; a new client that takes over the slot, with request ids
+   restarting at 0, receives the answer. *)
+Theorem c11_routing_refuted : ~ c11_routing_full.
+Proof.
+  intro H. pose proof (H cfg1 (run cfg1 w_routing) (reach_run _ _)) as H1.
+  pose proof w_routing_spec as W. apply existsb_exists in W. destruct W as [[p m] [Hin Hne]].
+  destruct (H1 p m Hin) as [_ E]. cbn [fst snd] in Hne. rewrite E, N.eqb_refl in Hne. discriminate.
+Qed.
+Print Assumptions c11_routing_refuted.
+(* proved part: the request-id half, unconditionally (the client half is tied only by the
+   correspondence runs: outside the known class no history showed a foreign response) *)
+Theorem c11_routing_partial : forall g s, reach g s ->
+  forall p m, In (p, m) (s_rlog s) -> p_rid m = q_rid (pn_msg p).
+Proof. exact rlog_ok_reach. Qed.
+Print Assumptions c11_routing_partial.
+
+(* ---- limits ------------------------------------------------------------------------------- *)
+(* In every reachable state, for every connection: at most max_response_buffer_size responses
+   are buffered per channel (= per pending response and server), at most
+   max_borrowed_responses_per_pending_response are borrowed per channel, at most
+   max_active_requests_per_client requests are queued and at most that many are held by the
+   server per client. *)
+Theorem c11_limits : forall g s, cfg_ok g -> reach g s ->
+  Forall (fun k => Forall (fun x => lenN (c_sub x) <= RB g /\ lenN (c_bor x) <= MB g) (k_ch k) /\
+                   lenN (k_rsub k) <= MA g /\ lenN (k_rbor k) <= MA g) (s_conns s).
+Proof. exact lim_ok_reach. Qed.
+Print Assumptions c11_limits.
+Example c11_limits_nonvacuous :
+  cfg_ok cfg3 /\ reach cfg3 (run cfg3 w_reuse) /\
+  map (fun k => map (fun x => lenN (c_sub x)) (k_ch k)) (s_conns (run cfg3 w_reuse)) = [[2; 0; 0]].
+Proof. split; [split; vm_compute; discriminate|]. split; [apply reach_run|vm_compute; reflexivity]. Qed.
+Print Assumptions c11_limits_nonvacuous.
+(* an excess send (ExceedsMaxActiveRequests) gives everything back: the state is the one after
+   dropping the unsent request (counters and reference count restored, channel id returned) *)
+Theorem c11_limits_rejected_send : forall g s m p, client_send g s m = (p, inl EMaxActive) ->
+  get_client s (q_cl m) <> None -> p = request_release s m false.
+Proof. exact client_send_rejected. Qed.
+Print Assumptions c11_limits_rejected_send.
+Example c11_limits_rejected_send_nonvacuous :
+  snd (step cfg1 ord_all (run cfg1 [Cc 0; Sc 0; Q 0; Sr 0]) (Q 0)) = OErr EMaxActive /\
+  snd (step cfg1 ord_all (run cfg1 [Cc 0; Sc 0; Q 0; Sr 0; Q 0; Pd 0]) (Q 0)) = OOkN 1.
+Proof. split; vm_compute; reflexivity. Qed.
+Print Assumptions c11_limits_rejected_send_nonvacuous.
+(* a full buffer without overflow rejects, with overflow evicts exactly the oldest *)
+Theorem c11_limits_buffer : forall A cap (q : list A) m,
+  (cap <= lenN q -> try_send false cap q m = None) /\
+  (forall q' old, try_send true cap q m = Some (q', Some old) -> exists t, q = old :: t /\ q' = t ++ [m]).
+Proof. intros. split; [apply try_send_full_no_overflow|apply try_send_evicts_oldest]. Qed.
+Print Assumptions c11_limits_buffer.
+
+(* ---- disconnect ---------------------------------------------------------------------------- *)
+(* drop of the PendingResponse closes its channel on every connection of the client: no
+   ActiveRequest bound to (that connection, channel, request id) is connected afterwards *)
+Theorem c11_disconnect_visible_partial : forall s p k,
+  In k (s_conns s) -> k_cl k = pn_cl p -> view_on (k_cv k) = true ->
+  N.ltb (q_ch (pn_msg p)) (lenN (k_ch k)) = true ->
+  chw (c_state (k_chan k (q_ch (pn_msg p)))) -> rid_ok (q_rid (pn_msg p)) ->
+  exists k', In k' (s_conns (pend_drop s p)) /\ k_cl k' = k_cl k /\ k_sv k' = k_sv k /\
+             ch_has_state (c_state (k_chan k' (q_ch (pn_msg p)))) (q_rid (pn_msg p)) = false.
+Proof. exact pend_drop_closes. Qed.
+Print Assumptions c11_disconnect_visible_partial.
+Example c11_disconnect_visible_nonvacuous :
+  digest_a (run cfg1 [Cc 0; Sc 0; Q 0; Sr 0]) = [(0, 0, true, false)] /\
+  digest_a (run cfg1 [Cc 0; Sc 0; Q 0; Sr 0; Pd 0]) = [(0, 0, false, false)] /\
+  digest_p (run cfg1 [Cc 0; Sc 0; Q 0; Sr 0; Ad 0]) = [(0, false, false)].
+Proof. repeat split; vm_compute; reflexivity. Qed.
+Print Assumptions c11_disconnect_visible_nonvacuous.
+(* the clause for all later states ("an ActiveRequest is connected only while the pending
+   response of its own request lives") is false for the same reason as routing: *)
+Definition c11_disconnect_visible_full : Prop := forall g s, reach g s ->
+  forall a, In a (s_acts s) -> act_connected s a = true ->
+  exists p, In p (s_pends s) /\ pn_cl p = q_cl (ac_msg a) /\ q_rid (pn_msg p) = q_rid (ac_msg a).
+Theorem c11_disconnect_visible_refuted : ~ c11_disconnect_visible_full.
+Proof.
+  intro H. pose proof (H cfg1 (run cfg1 w_disc) (reach_run _ _)) as H1.
+  pose proof w_disc_spec as W. unfold disc_bad in W. apply existsb_exists in W. destruct W as [a [Hin Hb]].
+  apply andb_prop in Hb. destruct Hb as [Hc Hn].
+  destruct (H1 a Hin Hc) as [p [Hp [E1 E2]]].
+  apply Bool.negb_true_iff in Hn. rewrite <- Bool.not_true_iff_false in Hn. apply Hn.
+  apply existsb_exists. exists p. split; [exact Hp|]. rewrite E1, E2, !N.eqb_refl. reflexivity.
+Qed.
+Print Assumptions c11_disconnect_visible_refuted.
+
+(* ---- request / response payload memory ----------------------------------------------------- *)
+(* "a port never runs out of chunks while all limits are respected": false on both sides *)
+Definition c11_reqres_never_oom_full : Prop := forall g s ord o, cfg_ok g -> reach g s ->
+  snd (step g ord s o) <> OErr EOom.
+Theorem c11_reqres_never_oom_refuted_client : ~ c11_reqres_never_oom_full.
+Proof.
+  intro H. apply (H cfg1 (run cfg1 w_client_oom) ord_all (L 0)); [split; vm_compute; discriminate|apply reach_run|exact w_client_oom_spec].
+Qed.
+Print Assumptions c11_reqres_never_oom_refuted_client.
+Theorem c11_reqres_never_oom_refuted_server : ~ c11_reqres_never_oom_full.
+Proof.
+  intro H. apply (H cfg2 (run cfg2 w_server_oom) ord_all (As 0)); [split; vm_compute; discriminate|apply reach_run|exact w_server_oom_spec].
+Qed.
+Print Assumptions c11_reqres_never_oom_refuted_server.
+(* proved part: OutOfMemory is exact -- a client loan fails with it only when every chunk of
+   the segment is referenced (after reclaiming everything the servers returned) *)
+Theorem c11_reqres_never_oom_partial : forall g s cl hid s',
+  client_loan g s cl hid = (s', Val (inl EOom)) ->
+  exists c, get_client s' cl = Some c /\ nreq g <= rc_used (cl_rc c).
+Proof. exact client_loan_oom_exact. Qed.
+Print Assumptions c11_reqres_never_oom_partial.
+(* NOT proved (visible on purpose): conservation of the reference counts (stored counter =
+   holders + queued + borrowed + not yet reclaimed), request delivery exactly once per connected
+   server, per-(server, request) response order.  They are tied by the correspondence runs only. *)
+Definition c11_reqres_conservation_full : Prop := forall g s, reach g s ->
+  forall c, In c (s_clients s) -> forall id n, In (id, n) (cl_rc c) ->
+    n = (if existsb (fun l => N.eqb (q_id (ln_msg l)) id) (s_loans s) || existsb (fun p => N.eqb (q_id (pn_msg p)) id) (s_pends s) then 1 else 0)
+        + lenN (filter (fun k => N.eqb (k_cl k) (cl_inst c) && view_active (k_cv k) && existsb (N.eqb id) (conn_req_used k)) (s_conns s)).
+Definition c11_request_once_full : Prop := forall g s, reach g s ->
+  forall sv, NoDup (map (fun x => q_id (snd x)) (filter (fun x => N.eqb (fst x) sv) (s_slog s))).
+Definition c11_routing_order_full : Prop := forall g s, reach g s ->
+  forall p sv, exists l, l = map (fun pm => p_stamp (snd pm)) (filter (fun pm => N.eqb (q_id (pn_msg (fst pm))) (q_id (pn_msg p)) && N.eqb (p_sv (snd pm)) sv) (s_rlog s)) /\
+    forall i j, (i < j < length l)%nat -> nth i l 0 < nth j l 0.
